@@ -5,14 +5,14 @@ import glob, importlib.util, os
 # Axioms a property theorem may depend on: only ones declared by the Coq standard library
 # (primitive floats / Uint63, classical reals used by Flocq and Reals, functional extensionality).
 ALLOWED_AXIOMS = [
-    r"(Coq\.Floats\.)?FloatAxioms\.\w+", r"Uint63Axioms\.\w+", r"(\w+\.)*Uint63\.\w+",
+    r"(Coq\.Floats\.)?FloatAxioms\.[\w.]+", r"Uint63Axioms\.\w+", r"(\w+\.)*Uint63\.\w+",
     r"ClassicalDedekindReals\.sig_forall_dec", r"ClassicalDedekindReals\.sig_not_dec",
     r"FunctionalExtensionality\.functional_extensionality_dep",
     r"Classical_Prop\.classic", r"Eqdep\.Eq_rect_eq\.eq_rect_eq", r"JMeq\.JMeq_eq",
     r"ProofIrrelevance\.proof_irrelevance",
     r"ClassicalEpsilon\.constructive_indefinite_description",
     # primitive types / operations are listed by Print Assumptions too; they are not axioms
-    r"float", r"int", r"PrimInt63\.\w+", r"PrimFloat\.\w+", r"Uint63\.\w+", r"FloatOps\.\w+",
+    r"float", r"int", r"PrimInt63\.\w+", r"PrimFloat\.[\w.]+", r"Uint63\.\w+", r"FloatOps\.\w+",
 ]
 
 PROPS = {}
